@@ -1023,10 +1023,21 @@ func (x *Exec) checkInvariants(st *State, ls *LoopSpec, phase string, idx *Term)
 	if ls == nil {
 		return
 	}
+	// sequential cut: an invariant conjunct may use the conjuncts listed before it (each of them is
+	// an obligation of its own), so helper invariants can serve as lemmas for the later ones
+	cs := st.clone()
+	var cutFacts []*Term
 	for _, inv := range ls.Invariants {
-		for _, p := range x.clauseParts(st, inv, idx) {
+		for _, p := range x.clauseParts(cs, inv, idx) {
 			name := fmt.Sprintf("%s/%s%s.%s", x.key, inv.Name, p.suffix, phase)
-			x.oblige(st, name, "invariant", inv.Text, p.t)
+			n0 := len(x.obls)
+			x.oblige(cs, name, "invariant", inv.Text, p.t)
+			if len(x.obls) > n0 {
+				if o := x.obls[len(x.obls)-1]; o.Status == "" {
+					o.Cut = append([]*Term{}, cutFacts...)
+				}
+			}
+			cutFacts = append(cutFacts, p.t)
 		}
 	}
 }
